@@ -4,6 +4,7 @@
    dropped or a new method touches the indices, they stop checking. *)
 From Coq Require Import String.
 From IoraVerif Require Import Common.Bytes C10.Ring C10.RingProofs C10.RingProtoDefs Gen.RingProto.
+From IoraVerif Require Import C10.Queue C10.QueueProofs C10.QueueShapeDefs Gen.QueueShape.
 Local Open Scope N_scope.
 
 (* 1. every method of both ring classes follows the model's step protocol (both indices loaded before any slot is
@@ -43,3 +44,34 @@ Example weak_orders_race :
   r_raced (fst (ring_run (psync (mkOrders false true true true)) (csync (mkOrders false true true true)) (ring_init 1) race_trace)) = true /\
   r_raced (fst (ring_run (psync (mkOrders true false true true)) (csync (mkOrders true false true true)) (ring_init 1) race_trace_c)) = true.
 Proof. vm_compute. split; reflexivity. Qed.
+
+(* ------------------------------------------------------------------ BlockingQueue *)
+(* 4. every method of BlockingQueue follows the wait / notify protocol the model w_step assumes: the container is changed
+      with the mutex held, waits are on the right condition variable with the mutex held and a predicate that reads the
+      closed flag, the mutation is followed on every path by the notification of the other side, and close() takes the
+      mutex between setting the flag and notifying all waiters *)
+Theorem queue_generated_shape_ok : queue_shape_ok BlockingQueue_methods = true.
+Proof. vm_compute. reflexivity. Qed.
+Print Assumptions queue_generated_shape_ok.
+
+(* 5. hence the model instantiated with the switch read off the source loses no wake-up in any schedule *)
+Theorem queue_generated_no_caller_left_blocked : forall cap l,
+  let s := w_run (close_fixed_of BlockingQueue_methods) (w_init cap) l in quiescent s ->
+  (0 < w_psleep s -> w_len s = w_cap s /\ w_closed s = false) /\
+  (0 < w_csleep s -> w_len s = 0 /\ w_closed s = false).
+Proof.
+  assert (E : close_fixed_of BlockingQueue_methods = true) by (vm_compute; reflexivity).
+  rewrite E. exact reachable_no_lost_wakeup.
+Qed.
+Print Assumptions queue_generated_no_caller_left_blocked.
+
+(* 6. not vacuous: the shapes of the defects found earlier / seeded are refused *)
+Example conditional_notify_refused :
+  method_ok ("tryDequeue"%string, [QLock 0; QIf 0; QReturn 1; QEndIf 0; QPop 0; QUnlock 0; QIf 0; QNotifyOne NotFull 1; QEndIf 0; QReturn 0]) = false.
+Proof. reflexivity. Qed.
+Example close_without_mutex_refused :
+  method_ok ("close"%string, [QSetClosed 0; QIf 0; QReturn 1; QEndIf 0; QNotifyAll NotEmpty 0; QNotifyAll NotFull 0]) = false.
+Proof. reflexivity. Qed.
+Example wait_without_closed_refused :
+  method_ok ("queue"%string, [QLock 0; QWait NotFull false 0; QPush 0; QUnlock 0; QNotifyOne NotEmpty 0; QReturn 0]) = false.
+Proof. reflexivity. Qed.
